@@ -45,7 +45,7 @@ func getBPM(cmd *cobra.Command) (op.BPM, error) {
 		var d op.BPM
 		return d, errorx.ErrOK
 	}
-	return op.BPM(v), nil
+	return op.NewBPM(v)
 }
 
 func setVelocityPersistentFlag(cmd *cobra.Command) {
